@@ -406,6 +406,8 @@ def run(tier):
     for v in sorted(S.SPELLINGS)[1:]:
         sweeps.append((f"core@{v}", 4 if quick else 5, False, 0))
     sweeps.append(("kr", 4 if quick else 5, False, 0))
+    sweeps.append(("abs", 4 if quick else 5, False, 0))
+    sweeps.append(("stmt", 4 if quick else 5, False, 0))
     tasks = []
     for kind, L, ie, min_len in sweeps:
         # the sub-checks run after every replayed history (their extra label /
